@@ -78,6 +78,14 @@ func (hs *heightSub) SetHeight(height uint64) {
 // It can return errElapsedHeight, which means a requested height was already seen
 // and caller should get it elsewhere.
 func (hs *heightSub) Wait(ctx context.Context, height uint64) error {
+	return hs.WaitUnless(ctx, height, nil)
+}
+
+// WaitUnless is like [Wait], but once the waiter is registered it calls available (if given) and
+// returns errElapsedHeight right away if that reports true.
+// This closes the window between a caller's failed lookup and the registration, in which the
+// height may have been provided (and its notification missed) without advancing [heightSub.Height].
+func (hs *heightSub) WaitUnless(ctx context.Context, height uint64, available func() bool) error {
 	if hs.Height() >= height {
 		return errElapsedHeight
 	}
@@ -102,6 +110,19 @@ func (hs *heightSub) Wait(ctx context.Context, height uint64) error {
 	sac.count++
 	hs.heightSubsLk.Unlock()
 	simYield("heightsub:Wait:registered")
+
+	if available != nil && available() {
+		// the height got available before we registered: nobody is going to signal us
+		hs.heightSubsLk.Lock()
+		select {
+		case <-sac.signal:
+			// signaled and cleaned up in the meantime
+		default:
+			hs.notify(height, false)
+		}
+		hs.heightSubsLk.Unlock()
+		return errElapsedHeight
+	}
 
 	select {
 	case <-sac.signal:
